@@ -3,7 +3,9 @@
   ONLY property theorems and non-vacuity examples live here.
 -/
 import XsVerif.Model.Defuse
+import XsVerif.Model.Prolog
 import XsVerif.Lemmas.Defuse
+import XsVerif.Lemmas.Prolog
 import XsVerif.Generated.C13
 
 namespace XsVerif.Props.C13
@@ -77,9 +79,9 @@ theorem undefused_transparent (m : Mode) (b : BaseClass) (ch : Chan) (mr : Bool)
 /-
   FULL STATEMENT (second sentence of the property), false for the code as it is:
     theorem clean_parsed : isDefused m b = true → outcome (plan m b ch) false scanEnd bufLen = .parsed
-  It fails on two channels of the repaired code (and on a third one, non-seekable raw streams, of the
-  current tree: finding C13-F1, repaired by notes/fixes/C13-raw-stream-defusable-reader.patch, which
-  the model already describes), all as safe refusals (see the counter-examples below).
+  It fails on two kinds of channels, both as safe refusals (see the counter-examples below, and
+  `clean_parsed_iff` for the exact characterisation).  Non-seekable raw streams behave like buffered
+  ones since fix 1d3fb41 (former finding C13-F1).
 -/
 
 /-- decidable guard: the channels on which a clean document survives defusing -/
@@ -188,5 +190,271 @@ theorem seek_refused_iff (r : Reader) (p : Nat) :
 
 example : (Reader.init 8192 [1, 2, 3]).run [.read (some 2), .seek 0, .read none] =
     [.data [1, 2], .at 0, .data [1, 2, 3]] := by decide
+
+/-! ## the second sentence, with the scan end predicted instead of measured -/
+
+/-- The scan of `k` blocks followed by `seek(0)` on the reader that `defuse_xml` builds over ANY
+    stream `s` fails exactly when the stream is longer than the 64 KiB buffer and the scan read
+    beyond it. -/
+theorem scan_rewind_refused_iff (s : List Nat) (k : Nat) :
+    ((Reader.init bufferSize s).readBlocks k).seek 0 = none ↔
+      bufferSize < s.length ∧ bufferSize < k * blockSize := by
+  have hi := init_inv bufferSize s
+  have hp : (Reader.init bufferSize s).pos ≤ s.length := by simp [Reader.init]
+  obtain ⟨-, h2, h3⟩ := readBlocks_refines k hi hp
+  rw [seek_refused_iff, h2, h3]
+  simp [Reader.init, bufferSize, blockSize]
+  omega
+
+/-- `outcomeDoc` compares exactly the two quantities of the reader: position after the scan and
+    length of the initial buffer. -/
+theorem outcomeDoc_reader (s : List Nat) (tagEnd : Nat) :
+    ((Reader.init bufferSize s).readBlocks (blocksFor tagEnd)).seek 0 = none ↔
+      bufLenOf s.length < scanEndOf s.length tagEnd := by
+  rw [scan_rewind_refused_iff]
+  simp [bufLenOf, scanEndOf, bufferSize]
+  omega
+
+/-- Exact characterisation of the second sentence: when defusing applies, a document without
+    entity declarations reaches the parser iff the channel is not the refusing one and, on
+    non-seekable raw/buffered streams, the document fits the 64 KiB buffer or its first start tag
+    ends within the first four blocks (65456 bytes). -/
+theorem clean_parsed_iff (m : Mode) (b : BaseClass) (ch : Chan) (total tagEnd : Nat)
+    (h : isDefused m b = true) :
+    outcomeDoc (plan m b ch) false total tagEnd = .parsed ↔
+      plan m b ch ≠ .refuse ∧
+      ((plan m b ch = .wrapRaw ∨ plan m b ch = .wrapBuffered) →
+        total ≤ bufferSize ∨ tagEnd ≤ 4 * blockSize) := by
+  have hp : plan m b ch ≠ .noDefuse := fun e => by have := (plan_noDefuse_iff m b ch).mp e; simp [h] at this
+  have key : bufLenOf total < scanEndOf total tagEnd ↔ bufferSize < total ∧ 4 * blockSize < tagEnd := by
+    simp only [bufLenOf, scanEndOf, blocksFor, bufferSize, blockSize]
+    omega
+  cases hpl : plan m b ch <;> simp_all [outcomeDoc, outcome] <;> omega
+
+/-- every document of at most 64 KiB without entity declarations is parsed on every channel
+    except the refusing one -/
+theorem clean_small_parsed (m : Mode) (b : BaseClass) (ch : Chan) (total tagEnd : Nat)
+    (h : isDefused m b = true) (hr : plan m b ch ≠ .refuse) (hs : total ≤ bufferSize) :
+    outcomeDoc (plan m b ch) false total tagEnd = .parsed :=
+  (clean_parsed_iff m b ch total tagEnd h).mpr ⟨hr, fun _ => Or.inl hs⟩
+
+/-- C13-F2 with the numbers of the replayed witness (payload `big-comment-clean` as an instance:
+    70036 bytes, first start tag ends at offset 70031) -/
+theorem clean_refused_counterexample_doc :
+    outcomeDoc (plan .always .absent ⟨false, .buffered, false, false⟩) false 70036 70031 = .oserror ∧
+    outcomeDoc (plan .always .absent ⟨false, .raw, false, false⟩) false 70036 70031 = .oserror := by
+  decide
+
+example : outcomeDoc (plan .always .absent ⟨false, .raw, false, false⟩) false 70036 30 = .parsed := by decide
+example : scanEndOf 70036 70031 = 70036 ∧ bufLenOf 70036 = 65536 := by decide
+
+/-! ## the prolog grammar: what the handlers of the safe parser react to -/
+
+open XsVerif.Prolog
+
+/-- **classify_render.**  For every prolog of the grammar (any XML declaration, comments,
+    processing instructions, DOCTYPE with external identifier and internal subset of ENTITY /
+    NOTATION / ELEMENT / ATTLIST declarations, comments, PIs, PE references; arbitrary names,
+    literal and comment contents within XML's lexical rules) followed by the start tag of the root
+    element, the byte-level scanner reaches exactly the handler that the syntax tree says. -/
+theorem classify_render (p : Prolog) (root : Bytes) (hwf : p.wf = true) (hr : startsTag root = true) :
+    classify (p.render ++ root) = firstHandler p := by
+  obtain ⟨bom, xd, m1, dt, m2⟩ := p
+  simp only [Prolog.wf, Bool.and_eq_true] at hwf
+  obtain ⟨⟨⟨hx, hm1⟩, hd⟩, hm2⟩ := hwf
+  have hroot : ∀ f, run (.text f false) root = .done .clean := by
+    intro f
+    match root, hr with
+    | 60 :: c :: rest, hr =>
+      simp only [startsTag] at hr
+      have h33 : c ≠ 33 ∧ c ≠ 63 := by
+        simp only [isNameStart, Bool.or_eq_true, Bool.and_eq_true, decide_eq_true_eq, beq_iff_eq] at hr
+        omega
+      simp [step, isWs, hr, h33.1, h33.2]
+  have hbom : run st0 (if bom then [239, 187, 191] else []) = st0 := by
+    cases bom <;> simp [st0, step, isWs]
+  have hxd : run st0 (xmlDeclBytes xd) =
+      .text { flags0 with sa := Prolog.standalone ⟨bom, xd, m1, dt, m2⟩ } false := by
+    cases xd with
+    | none => rfl
+    | some x => simpa [xmlDeclBytes, Prolog.standalone] using run_xmlDecl x hx
+  simp only [classify, Prolog.render, run_append, hbom, hxd, run_miscs _ m1 hm1]
+  cases dt with
+  | none =>
+    simp [doctypeBytes, run_miscs _ m2 hm2, hroot, verdictOf, firstHandler]
+  | some d =>
+    simp only [doctypeBytes]
+    rw [run_doctype _ d hd rfl rfl]
+    simp only [firstHandler]
+    cases firstLive (Prolog.standalone ⟨bom, xd, m1, some d, m2⟩) true (d.subset.getD []) with
+    | some v => simp [verdictOf]
+    | none => simp [verdictOf]
+
+/-- The scanner never reports `malformed` on a rendered prolog (the verdict is always one of the
+    four a handler can produce). -/
+theorem render_never_malformed (p : Prolog) (root : Bytes) (hwf : p.wf = true) (hr : startsTag root = true) :
+    classify (p.render ++ root) ≠ .malformed := by
+  rw [classify_render p root hwf hr]
+  unfold firstHandler
+  cases p.doctype with
+  | none => simp
+  | some d =>
+    simp only
+    cases hfl : firstLive p.standalone true (d.subset.getD []) with
+    | some v => exact (firstLive_ne_clean _ _ _ _ hfl).2.1
+    | none => simp only; split <;> simp
+
+/-- No false refusal: a prolog that declares no entity and has no external identifier reaches no
+    handler — for every prolog, without guard (second sentence of the property, scanner side). -/
+theorem clean_never_refused (p : Prolog) (root : Bytes) (hwf : p.wf = true) (hr : startsTag root = true)
+    (hc : mustRefuse p = false) : classify (p.render ++ root) = .clean := by
+  rw [classify_render p root hwf hr]
+  unfold firstHandler
+  unfold mustRefuse at hc
+  cases hd : p.doctype with
+  | none => rfl
+  | some d =>
+    simp only [hd, Bool.or_eq_false_iff] at hc
+    simp only
+    cases hfl : firstLive p.standalone true (d.subset.getD []) with
+    | some v =>
+      have := (firstLive_ne_clean _ _ _ _ hfl).2.2
+      simp [hc.2] at this
+    | none => simp [hc.1]
+
+/-
+  FULL STATEMENT (first sentence, scanner side), false for the parser configuration in use:
+    theorem classify_render_mustRefuse : p.wf → startsTag root →
+        (classify (p.render ++ root) != .clean) = mustRefuse p
+  It fails for (a) standalone="yes" with an external identifier and no processed entity declaration
+  (XML_PARAM_ENTITY_PARSING_UNLESS_STANDALONE: the external subset is not loaded, the handler is not
+  reached) and (b) entity declarations that follow a reference to an undeclared parameter entity in
+  a document that is not standalone (expat stops processing declarations, XML 1.0 §5.1).  In both
+  cases nothing is expanded or fetched by the parser either.  Findings C13-F4 and C13-F5.
+-/
+
+/-- On regular prologs (no standalone="yes" together with an external identifier, no PE reference
+    in the internal subset) a handler is reached exactly when the document declares an entity of
+    any of the four kinds or references an external DTD subset. -/
+theorem classify_render_mustRefuse_partial (p : Prolog) (root : Bytes) (hwf : p.wf = true)
+    (hr : startsTag root = true) (hg : regular p = true) :
+    (classify (p.render ++ root) != .clean) = mustRefuse p := by
+  rw [classify_render p root hwf hr]
+  unfold firstHandler mustRefuse
+  unfold regular at hg
+  cases hd : p.doctype with
+  | none => rfl
+  | some d =>
+    simp only [hd, Bool.and_eq_true, Bool.not_eq_true', Bool.and_eq_false_iff] at hg
+    simp only
+    cases hfl : firstLive p.standalone true (d.subset.getD []) with
+    | some v =>
+      obtain ⟨h1, -, h3⟩ := firstLive_ne_clean _ _ _ _ hfl
+      simp [h1, h3]
+    | none =>
+      have hne := (firstLive_none_iff p.standalone _ hg.2).mp hfl
+      simp only [hne, Bool.or_false]
+      rcases hg.1 with hs | he
+      · cases hx : d.ext.isSome <;> simp [hs]
+      · simp [he]
+
+/-- (a) `<?xml version="1.0" standalone="yes"?><!DOCTYPE r SYSTEM "x">` -/
+def witnessStandalone : Prolog :=
+  { bom := false, xmlDecl := some ⟨none, some true⟩, misc1 := [],
+    doctype := some ⟨[114], some (.system ⟨.dq, [120]⟩), none⟩, misc2 := [] }
+
+/-- (b) `<!DOCTYPE r [%p;<!ENTITY e "v">]>` -/
+def witnessPeRef : Prolog :=
+  { bom := false, xmlDecl := none, misc1 := [],
+    doctype := some ⟨[114], none, some [.peRef [112], .entity false [101] (.value ⟨.dq, [118]⟩)]⟩, misc2 := [] }
+
+/-- C13-F4: an external DTD subset referenced by a standalone="yes" document reaches no handler -/
+theorem standalone_external_counterexample :
+    witnessStandalone.wf = true ∧ mustRefuse witnessStandalone = true ∧
+    classify (witnessStandalone.render ++ [60, 114, 47, 62]) = .clean := by decide +kernel
+
+/-- C13-F5: an entity declared after a reference to an undeclared parameter entity reaches no handler -/
+theorem entity_after_peref_counterexample :
+    witnessPeRef.wf = true ∧ mustRefuse witnessPeRef = true ∧
+    classify (witnessPeRef.render ++ [60, 114, 47, 62]) = .clean := by decide +kernel
+
+/-- a rich prolog meeting the hypotheses of `classify_render` (BOM, XML declaration with encoding,
+    comment with a dash, DOCTYPE with PUBLIC identifier, ATTLIST default containing `>` and `]`,
+    comment and PI containing `<!ENTITY`, external parameter entity) -/
+def samplePrology : Prolog :=
+  { bom := true, xmlDecl := some ⟨some [85, 84, 70, 45, 56], some false⟩,
+    misc1 := [.comment [32, 97, 45, 98, 32], .space [10]],
+    doctype := some ⟨[114], some (.pub ⟨.dq, [45, 47, 47, 88]⟩ ⟨.sq, [120, 34, 121]⟩),
+      some [.element [120] [40, 35, 80, 67, 68, 65, 84, 65, 41],
+            .attlist [120] [⟨[97], [67, 68, 65, 84, 65], .lit ⟨.dq, [97, 62, 98, 93, 62]⟩⟩],
+            .comment [60, 33, 69, 78, 84, 73, 84, 89, 32, 101, 32, 34, 120, 34, 62],
+            .pi [112] [60, 33, 69, 78, 84, 73, 84, 89, 32, 63],
+            .entity true [112, 101] (.ext (.system ⟨.dq, [117]⟩))]⟩,
+    misc2 := [.pi [113] []] }
+
+example : samplePrology.wf = true ∧ regular samplePrology = true ∧
+    classify (samplePrology.render ++ [60, 114, 47, 62]) = .entity [112, 101] := by decide +kernel
+
+/-! ## first sentence, end to end: scanner verdict + decision table -/
+
+/-- When defusing applies, a regular prolog that declares an entity or references an external
+    subset never reaches the parser, whatever the channel, the length of the document and the
+    position of its first start tag. -/
+theorem defused_prolog_never_parsed (m : Mode) (b : BaseClass) (ch : Chan) (p : Prolog) (root : Bytes)
+    (total tagEnd : Nat) (h : isDefused m b = true) (hwf : p.wf = true) (hr : startsTag root = true)
+    (hg : regular p = true) (hm : mustRefuse p = true) :
+    outcomeDoc (plan m b ch) (classify (p.render ++ root) != .clean) total tagEnd ≠ .parsed := by
+  rw [classify_render_mustRefuse_partial p root hwf hr hg, hm]
+  exact defused_entities_never_parsed m b ch _ _ h
+
+/-! ## the included-schema role: every resource of a build goes through the scan -/
+
+/-- **every_parse_scanned.**  In the trace of a schema build (main schema, includes, redefines,
+    overrides, imports, nested to any depth), every resource that is handed to the parser while
+    defusing applies to it was scanned immediately before, and is not a document that must be
+    refused. -/
+theorem every_parse_scanned (m : Mode) (f : Forest) (pre post : List Ev) (r : Res)
+    (ht : (build m f).1 = pre ++ .parsed r :: post) (hd : isDefused m r.base = true) :
+    r.mustRefuse = false ∧ ∃ pre', pre = pre' ++ [.scanned r] := by
+  have h := build_ok m f none
+  rw [ht] at h
+  obtain ⟨h1, h2⟩ := okFrom_spec m r post hd pre none h
+  exact ⟨h1, lastOr_some_iff pre _ h2⟩
+
+/-- a document that must be refused is never parsed in a build when defusing applies to it -/
+theorem build_refused_never_parsed (m : Mode) (f : Forest) (r : Res)
+    (hd : isDefused m r.base = true) (hm : r.mustRefuse = true) : .parsed r ∉ (build m f).1 := by
+  intro hmem
+  obtain ⟨pre, post, ht⟩ := List.append_of_mem hmem
+  have := (every_parse_scanned m f pre post r ht hd).1
+  simp [hm] at this
+
+/-- the included-schema role: a refused include (redefine, override) aborts the build of the
+    including schema with the forbidden-resource error; nothing after it is loaded -/
+theorem include_forbidden_raises (m : Mode) (r : Res) (c s : Forest)
+    (h : resOutcome m r = .forbidden) :
+    build m (.cons r .incl c s) = (resEvents m r, .raised .forbidden) := by
+  simp [build, h, swallowed]
+
+/-- … and the main schema that includes it raises the same error -/
+theorem main_include_forbidden_raises (m : Mode) (r0 r : Res) (c s : Forest)
+    (h0 : resOutcome m r0 = .parsed) (h : resOutcome m r = .forbidden) :
+    (build m (.cons r0 .main (.cons r .incl c s) .nil)).2 = .raised .forbidden := by
+  simp [build, h0, h, swallowed]
+
+/-- characterisation of the other role: a refused *import* is not loaded either, but the loader
+    turns the error into a warning and goes on (loaders.py:188-201) -/
+theorem import_forbidden_skipped (m : Mode) (r : Res) (c s : Forest)
+    (h : resOutcome m r = .forbidden) :
+    build m (.cons r .imp c s) = (resEvents m r ++ (build m s).1, (build m s).2) := by
+  simp [build, h, swallowed]
+
+def resA : Res := ⟨0, .absent, ⟨true, .other, false, false⟩, false, 100, 40⟩
+def resB : Res := ⟨1, .loc, ⟨true, .buffered, false, true⟩, false, 100, 40⟩
+def resC : Res := ⟨2, .remote, ⟨false, .buffered, false, true⟩, true, 100, 40⟩
+
+example : build .remote (.cons resA .main (.cons resB .incl (.cons resC .incl .nil .nil) .nil) .nil) =
+    ([.opened resA, .parsed resA, .opened resB, .parsed resB, .opened resC, .scanned resC,
+      .failed resC .forbidden], .raised .forbidden) := by decide
 
 end XsVerif.Props.C13
